@@ -32,7 +32,8 @@ REQUIRED = ["contract:Assertion.set_p_values", "contract:Audit.summarize_status"
             "params_silent", "params_rejected", "proved_sticky_observed",
             "test_objects_hold_another_bound_before_call", "tests_configured_with_random_order_false",
             "mixed_audit_polling_contest_among_comparison_contests", "status_asked_for_copied_contests_with_other_limits",
-            "reset_from_a_state_with_p_values_but_empty_histories"]
+            "reset_from_a_state_with_p_values_but_empty_histories",
+            "status_asked_with_a_limit_within_one_ulp_of_the_measured_risk"]
 ASSUMPTIONS = ["samples have at least one observation per assertion", "summarize_status prints: stdout is swallowed, not parsed"]
 N_CASES = {"quick": 9600, "thorough": 80000}
 
@@ -286,6 +287,11 @@ def run_case(es, rec):
                 for cid_, con_ in sim.contests.items():
                     cc = copy.copy(con_)
                     cc.risk_limit = lim2 if rng.random() < 0.7 else con_.risk_limit
+                    mp = max((a_.p_value for a_ in con_.assertions.values()), default=1.0)
+                    if rng.random() < 0.4 and 0 < mp < 1:
+                        # a limit within one unit in the last place of the contest's measured risk: <= is exact
+                        cc.risk_limit = rng.choice((math.nextafter(mp, 0.0), mp, math.nextafter(mp, 1.0)))
+                        rec.count("status_asked_with_a_limit_within_one_ulp_of_the_measured_risk")
                     c2[cid_] = cc
                 rec.count("status_asked_for_copied_contests_with_other_limits")
                 ok, _ = rec.guard("c09.call:summarize_status", audit.summarize_status, c2)
